@@ -15,7 +15,10 @@ key holds the function object).  This file adds what the source does with loops,
 * exact rational matrix algebra on `List (List Rat)` (product, transpose, trace, Gauss–Jordan inverse) as the `MatOps` the
   generated statistics are evaluated with;
 * the module-level spectrum cache as a memo table (`Memo`), keyed by a key function of the *function object*;
-* `chi2Mix` = `sum_chi2_ppf` with the chi-square cdf values as inputs.
+* `chi2Mix` = `sum_chi2_ppf` with the chi-square cdf values as inputs;
+* `llSum` = `Inference.ll(model, data)` (the function `get_godambe` differentiates): the sum of the generated per-entry expression
+  `llBin` over the entries that the generated mask analysis leaves unmasked (`llCellMasked`), with `log(model)` and
+  `gammaln(data + 1)` as inputs.
 -/
 namespace DadiVerif
 namespace Godambe
@@ -226,6 +229,29 @@ def chi2Mix (w : List Rat) (isScalar : Bool) (xs : List Rat) (cdfs : List (List 
         | v :: _ => .ok (.scalar v)
         | [] => .error "IndexError"
     | some false => .ok (.array ppf)
+
+/-! ### `Inference.ll`: which entries of model and data enter the likelihood -/
+/-- one entry of the spectra: masked in the model? masked in the data? model value, data value, `log(model)`, `gammaln(data+1)` -/
+structure LLCell where
+  mm : Bool
+  dm : Bool
+  m : Rat
+  d : Rat
+  logm : Rat
+  lgam : Rat
+deriving DecidableEq, Repr
+
+/-- is the entry masked in the array that `ll` sums?  (numpy.ma arithmetic over the operands of the generated expression: the model's
+    mask and the `<= 0` domain of the masked logarithm, the data's mask -- each only if some operand carries it) -/
+def llCellMasked (c : LLCell) : Bool :=
+  (llMaskModel && c.mm) || (llMaskModelLogDomain && decide (c.m ≤ 0)) || (llMaskData && c.dm)
+
+/-- `ll(model, data) = ll_per_bin(model, data).sum()`: masked entries do not contribute -/
+def llSum (cells : List LLCell) : Rat :=
+  ((cells.filter fun c => !llCellMasked c).map fun c => llBin c.m c.d c.logm c.lgam).sum
+
+/-- `ll_per_bin(model, data).count()` -/
+def llCount (cells : List LLCell) : Nat := (cells.filter fun c => !llCellMasked c).length
 
 end Godambe
 end DadiVerif
